@@ -549,7 +549,9 @@ def evaluate(run, want=None):
     # ---- final model
     # The model the last round fitted and scored against, taken from the phase trace (NOT from whatever object is handed to
     # the metric functions): mean and covariance from the last statistics phase, MRFs from the model the last labelling scored.
-    st_last = [p for p in phases if p["phase"] == "stats"]
+    # (only phases up to the last labelling count: anything the library runs afterwards is not "the last round")
+    last_label_idx = max([i for i, p in enumerate(phases) if p["phase"] == "label"], default=-1)
+    st_last = [p for p in phases[:last_label_idx] if p["phase"] == "stats"]
     if not st_last or not label_events:
         I.c("final_model_not_observed")
         return I
